@@ -2,7 +2,9 @@
 //!
 //! Provides time and date indication with timezone offset for time-sensitive payment processing and settlement timing.
 
-use super::swift_utils::{parse_date_yymmdd, parse_exact_length, parse_numeric, parse_time_hhmm};
+use super::swift_utils::{
+    ensure_ascii, parse_date_yymmdd, parse_exact_length, parse_numeric, parse_time_hhmm,
+};
 use crate::errors::ParseError;
 use crate::traits::SwiftField;
 use chrono::{NaiveDate, NaiveTime};
@@ -26,7 +28,7 @@ mod time_format {
         D: Deserializer<'de>,
     {
         let s = String::deserialize(deserializer)?;
-        if s.len() != 4 {
+        if s.len() != 4 || !s.bytes().all(|b| b.is_ascii_digit()) {
             return Err(serde::de::Error::custom("Time must be 4 digits (HHMM)"));
         }
         let hours: u32 = s[0..2].parse().map_err(serde::de::Error::custom)?;
@@ -105,6 +107,7 @@ impl SwiftField for Field13C {
     where
         Self: Sized,
     {
+        ensure_ascii(input, "Field 13")?;
         // Minimum: /8c/4!n1!x4!n = / + 8 + / + 4 + 1 + 4 = 18 chars minimum
         if input.len() < 10 {
             // At minimum we need /X/ + time + sign + offset
@@ -243,6 +246,7 @@ impl SwiftField for Field13D {
     where
         Self: Sized,
     {
+        ensure_ascii(input, "Field 13")?;
         // Must be exactly 15 characters: 6 (date) + 4 (time) + 1 (sign) + 4 (offset)
         if input.len() != 15 {
             return Err(ParseError::InvalidFormat {
